@@ -30,7 +30,14 @@ pub(super) fn extract_atomic(
     let (preceding, atomic) = split_off_back(pipeline, output.clone(), ctx);
 
     #[cfg(feature = "verif")]
-    crate::sql::verif_hooks::trace_split(ctx, &verif_before, &output, preceding.as_deref(), &atomic);
+    crate::sql::verif_hooks::trace_split(
+        ctx,
+        &verif_before,
+        &ctx.determine_select_columns(&verif_before),
+        &output,
+        preceding.as_deref(),
+        &atomic,
+    );
 
     let atomic = if let Some(preceding) = preceding {
         log::debug!(
